@@ -208,7 +208,8 @@ impl C16 {
                 0x01, 0xFD, 0xFF, 0xED, 0x78, 0x86, 0x77, 0x2C, // LD BC,FFFD ; IN A,(C) ; ADD A,(HL) ; LD (HL),A ; INC L
                 0xDB, 0x1F, 0x86, 0x77, 0x2C, // IN A,(1F) ; ADD A,(HL) ; LD (HL),A ; INC L
                 0x3A, 0x00, 0x40, 0x3C, 0x32, 0x00, 0x40, // LD A,(4000) ; INC A ; LD (4000),A  (contended access)
-                0x18, 0xE1, // JR to the start
+                0x01, 0xFF, 0x40, 0xED, 0x78, 0x86, 0x77, 0x2C, // LD BC,40FF ; IN A,(C) (port with a contended high byte) ; ADD A,(HL) ; LD (HL),A ; INC L
+                0x18, 0xD9, // JR to the start
             ];
             write_mem(&mut e, 0x8000, &prog);
             let mut st = crate::cpustate::CpuState::default();
@@ -217,6 +218,18 @@ impl C16 {
             st.hl = 0x9000;
             st.im = 1;
             st.to_impl(e.verif_cpu());
+            // ... started from an SZX snapshot of itself taken near the end of a frame (loaders are code too)
+            let mut sn = crate::snapfmt::SnapState::new(m128);
+            for b in 0..8u8 {
+                if let Some(pg) = phys_page(m128, b) {
+                    sn.banks[b as usize].copy_from_slice(e.verif_ram_page(pg));
+                }
+            }
+            sn.cpu = cpu_state(&mut e);
+            sn.port_7ffd = if m128 { 0x10 } else { 0 };
+            sn.frame_t = cfg.frame_len() as u32 - 100;
+            let bytes = crate::snapfmt::write_szx(&sn, &crate::snapfmt::SzxOptions::default());
+            e.load_snapshot(Snapshot::Szx(make_asset(0, &bytes, 0))).map_err(|x| Fail::new("C16.load", "", format!("{:?}", x)))?;
         }
         if d.r0 > 0 {
             e.verif_set_frame_clocks(d.r0.min(cfg.frame_len() - 1));
